@@ -308,6 +308,12 @@ func TestC19_Corruptions(t *testing.T) {
 				}
 				v, h2 := corruptValue(t, b.Header)
 				how = h2
+				if hm, ok := v.(map[string]interface{}); ok && rapid.IntRange(0, 2).Draw(t, "knownHeaderMember") == 0 {
+					// header members the JWS code knows about, with values of every JSON type
+					name := rapid.SampledFrom([]string{"b64", "crit", "kid", "alg", "typ", "jwk", "cty"}).Draw(t, "headerMember")
+					hm[name] = genHostileValue(t)
+					how = append(how, "header member "+name+" of another type")
+				}
 				hs := refJCS(v)
 				pl := []byte(refJCS(b.Signed))
 				b.JWS = compactJWS(hs, pl, b.SignKey.Sign([]byte(b64([]byte(hs))+"."+b64(pl)), 0))
